@@ -232,6 +232,13 @@ def c05(chk):
                 [("AnemoConn.tla", "THEN IF TieBreak(n, p, cur[p].origin, o)", "THEN IF TRUE")], workers=4)
     tables = vlib.tlc_tables("TieBreakTable.tla", "TieBreakTable.cfg")
     table_check(chk, "tiebreak", tables["tiebreak"], "table-tiebreak", per_row=400 if quick(chk) else 20000)
+    # the active set itself, on real connections and real threads (MC_Ap, every behaviour to depth 3): which
+    # connection survives an add is the tie-break's verdict, whatever the order and however long the stored
+    # connection has been up (a few behaviours pause for seconds of real time before the second add)
+    ap_beh, ap_viol = vlib.tlc_replays("MC_Ap.tla", "SIM_Ap_ex3.cfg", exhaustive=True, workers=4)
+    if ap_viol:
+        chk.violation("model:" + ap_viol, "TLC: %s in MC_Ap" % ap_viol, {})
+    replay_check(chk, "ap-exhaustive", harness("replay-ap", file=vlib.write_json(os.path.join(vlib.WORK, "C05_ap.json"), ap_beh), threads=8))
     # every behaviour of MC_Conn with two dials between the pair (mutual, and twice the same way) - every order
     # in which admissions, the four finished tasks and the handler exits can be taken - replayed on real
     # Networks through schedule gates (exhaustive: 1262 behaviours), every node compared after every step
